@@ -21,6 +21,9 @@ uint32_t verif_param(void);         // per-query constant (case splits), fixed b
 template <class V, class T> static inline void pointVec(V& v, T* p, int n, int cap) {
     v._M_impl._M_start = p; v._M_impl._M_finish = p + n; v._M_impl._M_end_of_storage = p + cap;
 }
+// Typed storage whose constructor/destructor are NOT run.  (A byte array reinterpret_cast to T forces CBMC into byte-level
+// encodings of every access - orders of magnitude slower; measured on C20: no verdict in 900 s vs 128 s.)
+template <class T> union RawBox { T obj; RawBox() {} ~RawBox() {} };
 #define ASSUME(c) __CPROVER_assume(c)
 #define CHECK(c, label) verif_assert((c), label)
 #define END() verif_end()
